@@ -18,7 +18,7 @@ RULE = (
     "Hypothesis draws a closed source-free scene: shape 3..9 per axis, each axis either a periodic/Bloch pair "
     "or two independent faces from {zero halo, PEC, PMC}; uniform or rectilinear grid (cell widths from "
     "{0.6..1.6}*d); per-cell random positive eps and mu (isotropic or diagonal, values in [1,12]) written into the "
-    "material arrays; optional per-cell sigma_E >= 0; wall-consistent random E,H (dense gaussian from a drawn seed "
+    "material arrays (one case in three draws eps from [0.3,12], i.e. also below 1, at courant factor 0.5); optional per-cell sigma_E >= 0; wall-consistent random E,H (dense gaussian from a drawn seed "
     "and/or drawn impulses); 4..30 forward steps. Non-trivial = initial energy > 0 and (>= 2 distinct boundary "
     "kinds, or a non-uniform grid, or diagonal anisotropy, or loss). Distinct = sha1 of the case JSON."
 )
@@ -65,6 +65,9 @@ def case_strategy(draw, ctx):
         for _ in range(n_imp)
     ]
     dense = draw(st.sampled_from([1, 1, 0])) if n_imp else 1
+    eps_lo = draw(st.sampled_from([1.0, 1.0, 0.3]))
+    if eps_lo < 1.0:
+        spec["courant"] = 0.5  # keeps eps*mu >= 0.3 inside the CFL limit (an unstable run is not a conservation test)
     return {
         "scene": spec,
         "field_seed": draw(st.integers(0, 2**31 - 1)),
@@ -73,6 +76,8 @@ def case_strategy(draw, ctx):
         "impulses": imp,
         "dense": dense,
         "loss_level": draw(st.sampled_from([0.02, 0.2, 0.45])) if lossy else 0.0,
+        # "random positive material tensors": relative permittivities / permeabilities below 1 are positive too
+        "eps_lo": eps_lo,
     }
 
 
@@ -104,7 +109,8 @@ def body(ctx, case):
     rng = np.random.default_rng(case["mat_seed"])
     if case["percell"]:
         ie = arrays.inv_permittivities
-        arrays = arrays.aset("inv_permittivities", jnp.asarray(1.0 / rng.uniform(1, 12, ie.shape), dtype=ie.dtype))
+        lo = case.get("eps_lo", 1.0)
+        arrays = arrays.aset("inv_permittivities", jnp.asarray(1.0 / rng.uniform(lo, 12, ie.shape), dtype=ie.dtype))
         im = arrays.inv_permeabilities
         if hasattr(im, "shape") and getattr(im, "ndim", 0) == 4:
             arrays = arrays.aset("inv_permeabilities", jnp.asarray(1.0 / rng.uniform(1, 12, im.shape), dtype=im.dtype))
